@@ -28,6 +28,8 @@ def run(ctx):
                 return sc["out"] == "error"
             st = storelib.StoreRun(ctx, name, dict(over, EmitSel='"error"'),  sample=sample, select=sel).run(pool, storelib.default_violation(ctx), cov)
             kinds[name] = st["replayed"]
+        if not ctx.quick():
+            storelib.design_only(ctx, "big", dict(BadMode='"all"', MaxStmts=5, MaxRows=3, MaxFlush=1, Tables='{"t1"}', Vals="{1, 9}", Wheres="{0, 1, 101}"), cov, timeout=600)
     finally:
         pool.close()
     cov["failing_statements_replayed"] = sum(kinds.values())
